@@ -330,6 +330,45 @@ func runC05(c *Ctx) {
 			guard(c, "Remove", det, func() { s.R.Remove(p) })
 		}
 	}
+	// (4) scale: one node with a literal child for (nearly) every first byte, under a random parent text; every one of them
+	// is then requested, plus a neighbouring path that shares the first byte only
+	if c.Case%25 == 3 {
+		env := mon.NewEnv()
+		wide := env.NewRouter("wide", mux.WithLock(r.Bool()))
+		parent := ref.Pick(r, []string{"/", "", "/t/", "/{id}/"})
+		bs := make([]int, 0, 256)
+		for b := 1; b < 256; b++ {
+			if b != '{' && b != '}' {
+				bs = append(bs, b)
+			}
+		}
+		ref.Shuffle(r, bs)
+		bs = bs[:r.Range(120, len(bs))]
+		reg := map[string]*mon.Hnd{}
+		for _, b := range bs {
+			p := parent + string([]byte{byte(b)}) + "-tag"
+			h := env.NewHnd(mon.KRoute, p)
+			if ok, v := tryHandle(wide, p, h, []string{"GET"}); ok {
+				reg[p] = h
+			} else if _, isErr := v.(error); !isErr || isRuntimeError(v) {
+				c.Violate(fmt.Sprintf("Handle of one of many literal siblings panicked with a non-error or runtime fault: %T %v", v, v), info(map[string]any{"pattern": short(p)})())
+			}
+		}
+		c.Class("wide_node_120plus_first_bytes")
+		for p, h := range reg {
+			path := strings.Replace(p, "{id}", "7", 1)
+			o := mon.Do(wide, mon.Req{Method: "GET", Path: path})
+			c.Eval()
+			if o.Panicked || o.H == nil || o.H.Base != h {
+				c.Violate(fmt.Sprintf("a literal sibling among %d is not served by its own handler (panic=%v status=%d)", len(reg), o.Panic, o.Status), info(map[string]any{"pattern": short(p), "path": short(path)})())
+				break
+			}
+			if o2 := mon.Do(wide, mon.Req{Method: "GET", Path: path[:len(path)-1]}); o2.Panicked {
+				c.Violate(fmt.Sprintf("request sharing only the first byte with one of %d literal siblings panicked: %v", len(reg), o2.Panic), info(map[string]any{"path": short(path[:len(path)-1])})())
+				break
+			}
+		}
+	}
 	// canary: the router still serves
 	o := mon.Do(s.R, mon.Req{Method: "GET", Path: "/canary"})
 	if o.Panicked {
